@@ -33,6 +33,10 @@ def run(ctx, rep):
     r4(prog, ev, rep)
     r5(prog, ev, rep)
     shared_rules(ctx, prog, ev, rep)
+    # a Normalized Path of a deeply nested node is a long query: it must not run into a budget of the parser
+    from vflib.report import Shared
+    from rules import c06
+    c06.r4(ctx, Shared(rep, {"C06-R4": "C03-R9"}, lender="C06"))
 
 
 def collect_sites(prog, ev):
